@@ -12,7 +12,31 @@ type Hooks struct {
 
 var _ stakingtypes.StakingHooks = Hooks{}
 
-var sharesBeforeModified = sdk.NewDec(0)
+// The delegation shares seen by BeforeDelegationSharesModified are handed to the After* hook of the
+// same transaction through the store of that transaction, never through process memory: a value left
+// behind by a failed or merely simulated transaction is discarded together with its store branch.
+var sharesBeforeModifiedKey = []byte("SharesBeforeModified/value/")
+
+func (k Keeper) setSharesBeforeModified(ctx sdk.Context, shares sdk.Dec) {
+	bz, err := shares.Marshal()
+	if err != nil {
+		return
+	}
+	ctx.KVStore(k.storeKey).Set(sharesBeforeModifiedKey, bz)
+}
+
+// takeSharesBeforeModified returns the stored value (zero if none) and clears it.
+func (k Keeper) takeSharesBeforeModified(ctx sdk.Context) sdk.Dec {
+	store := ctx.KVStore(k.storeKey)
+	shares := sdk.NewDec(0)
+	if bz := store.Get(sharesBeforeModifiedKey); bz != nil {
+		if err := shares.Unmarshal(bz); err != nil {
+			shares = sdk.NewDec(0)
+		}
+		store.Delete(sharesBeforeModifiedKey)
+	}
+	return shares
+}
 
 func (k Keeper) Hooks() Hooks {
 	return Hooks{k}
@@ -48,7 +72,7 @@ func (hook Hooks) BeforeDelegationCreated(ctx sdk.Context, delAddr sdk.AccAddres
 
 func (hook Hooks) BeforeDelegationSharesModified(ctx sdk.Context, delAddr sdk.AccAddress, valAddr sdk.ValAddress) error {
 	del := hook.k.staking.Delegation(ctx, delAddr, valAddr)
-	sharesBeforeModified = del.GetShares()
+	hook.k.setSharesBeforeModified(ctx, del.GetShares())
 	return nil
 } // Must be called when a delegation's shares are modified
 
@@ -68,6 +92,7 @@ func (hook Hooks) BeforeValidatorSlashed(ctx sdk.Context, valAddr sdk.ValAddress
 
 func (hook Hooks) verifySuperStorageNodes(ctx sdk.Context, valAddr sdk.ValAddress, accAddr sdk.AccAddress, beforeDeletationRemoved bool) {
 	delegations := hook.k.staking.GetValidatorDelegations(ctx, valAddr)
+	sharesBeforeModified := hook.k.takeSharesBeforeModified(ctx)
 
 	//Records the shares that the validator shares have not been subtracted at the time of the unbond hook call
 	sharesToSub := sdk.NewDec(0)
@@ -124,10 +149,5 @@ func (hook Hooks) verifySuperStorageNodes(ctx sdk.Context, valAddr sdk.ValAddres
 				hook.k.SetNormalNode(ctx, node.Creator)
 			}
 		}
-	}
-
-	// reset shares before modified
-	if !sharesBeforeModified.IsZero() {
-		sharesBeforeModified = sdk.NewDec(0)
 	}
 }
